@@ -20,9 +20,12 @@ vars == <<va, ph, cs>>
 Leaf(e) == IF e.t = "lit" THEN StrV(e.s) ELSE IF e.t = "val" THEN e.v ELSE Dyn(e)
 Val(v) == [t |-> "val", v |-> v]
 World(ea, eb, ec, ek, envs, res) ==
-  [root |-> N(("a" :> Leaf(ea)) @@ ("b" :> Leaf(eb)) @@ ("c" :> Leaf(ec)) @@ ("n" :> N(("k" :> Leaf(ek)), <<>>)), <<>>),
+  \* l: a list under a key whose elements (a string and a dictionary) hold references - list elements are copied
+  \* by another code path than dictionary entries when the settings arrive through Merge
+  [root |-> N(("a" :> Leaf(ea)) @@ ("b" :> Leaf(eb)) @@ ("c" :> Leaf(ec)) @@ ("n" :> N(("k" :> Leaf(ek)), <<>>))
+              @@ ("l" :> N(<<>>, <<Dyn(Ref("b")), N(("x" :> Dyn(Ref("c"))), <<>>)>>)), <<>>),
    envs |-> envs, res |-> res]
-ReadNames == <<"a", "b", "c", "n.k", "n", "m">>
+ReadNames == <<"a", "b", "c", "n.k", "n", "m", "l.0", "l.1.x">>
 
 Exp(F(_)) == LET ideal == F({})
                  alts  == {[devs |-> DS, out |-> F(DS)] : DS \in DevSets}
@@ -57,19 +60,21 @@ RefsOfE(e) == CASE e.t \in {"lit", "val"} -> {} [] e.t = "ref" -> {e.n}
                 [] e.t = "cat" -> UNION {RefsOfE(e.ps[i]) : i \in 1..Len(e.ps)}
                 [] e.t = "ind" -> {"a", "b", "c", "n.k", "n"}
                 [] OTHER -> (IF e.l.t = "lit" THEN {e.l.s} ELSE {"a", "b", "c", "n.k", "n"}) \cup RefsOfE(e.r)
+\* a multi-segment name through a setting depends on that setting
+Base(x) == IF x = "a.k" THEN "a" ELSE x
 AmbiguousOf(ea, eb, ec, ek) ==
   LET ex(n) == CASE n = "a" -> ea [] n = "b" -> eb [] n = "c" -> ec [] n = "n.k" -> ek [] OTHER -> Lit("")
-      sc(n) == IF n = "n" THEN {"n.k"} ELSE {x \in RefsOfE(ex(n)) : x \in {"a", "b", "c", "n.k", "n"}}
+      sc(n) == IF n = "n" THEN {"n.k"} ELSE {Base(x) : x \in {y \in RefsOfE(ex(n)) : Base(y) \in {"a", "b", "c", "n.k", "n"}}}
       RECURSIVE Rch(_,_)
       Rch(X, k) == IF k = 0 THEN X ELSE Rch(X \cup UNION {sc(x) : x \in X}, k-1)
-  IN \E x \in {"a", "b", "c", "n.k"} : \E n \in AltNames(ex(x)) :
+  IN \E x \in {"a", "b", "c", "n.k"} : \E n0 \in AltNames(ex(x)) : LET n == Base(n0) IN
         n = "*" \/ x = n \/ x \in Rch(sc(n), 6) \/ (n = "n" /\ x = "n.k")
 
 \* the settings of the root form a reference cycle (statically): Unpack of the WHOLE config then
 \* shares its per-call cache between fields inside the cycle and its outcome depends on field order
 CyclicOf(ea, eb, ec, ek) ==
   LET ex(n) == CASE n = "a" -> ea [] n = "b" -> eb [] n = "c" -> ec [] n = "n.k" -> ek [] OTHER -> Lit("")
-      sc(n) == IF n = "n" THEN {"n.k"} ELSE {x \in RefsOfE(ex(n)) : x \in {"a", "b", "c", "n.k", "n"}}
+      sc(n) == IF n = "n" THEN {"n.k"} ELSE {Base(x) : x \in {y \in RefsOfE(ex(n)) : Base(y) \in {"a", "b", "c", "n.k", "n"}}}
       RECURSIVE Rch(_,_)
       Rch(X, k) == IF k = 0 THEN X ELSE Rch(X \cup UNION {sc(x) : x \in X}, k-1)
   IN \E n \in {"a", "b", "c", "n.k", "n"} : n \in Rch(sc(n), 6)
@@ -101,7 +106,7 @@ RefsOf(e) == CASE e.t = "lit" -> {} [] e.t = "val" -> {} [] e.t = "ref" -> {e.n}
                [] e.t = "ind" -> {"*"}
                [] OTHER -> (IF e.l.t = "lit" THEN {e.l.s} ELSE {"*"}) \cup RefsOf(e.r)
 ExprOf(n) == CASE n = "a" -> va [] n = "b" -> cs[1] [] n = "c" -> cs[2] [] n = "n.k" -> cs[3] [] OTHER -> Lit("")
-Succ(n) == IF n = "n" THEN {"n.k"} ELSE {x \in RefsOf(ExprOf(n)) : x \in {"a", "b", "c", "n.k", "n"}}
+Succ(n) == IF n = "n" THEN {"n.k"} ELSE {Base(x) : x \in {y \in RefsOf(ExprOf(n)) : Base(y) \in {"a", "b", "c", "n.k", "n"}}}
 RECURSIVE ReachN(_,_)
 ReachN(X, k) == IF k = 0 THEN X ELSE ReachN(X \cup UNION {Succ(x) : x \in X}, k-1)
 Acyclic == \A n \in {"a", "b", "c", "n.k"} : "*" \notin RefsOf(ExprOf(n)) /\ n \notin ReachN(Succ(n), 6)
@@ -114,16 +119,19 @@ FlattenReturns == ph = 1 => Flatten({}, W0, 8) = "returns"
 (* ---- universes ---------------------------------------------------------------------------- *)
 \* "q.k": a dotted name whose FIRST segment is absent from the root (the lookup fails with an error
 \* instead of "not found"); only a resolver (or an Env config) can provide it
-TabNK == ("n.k" :> <<NF("n"), NF("k")>>) @@ ("q.k" :> <<NF("q"), NF("k")>>)
+\* "a.k": a multi-segment name THROUGH the setting a (whose value may itself be a reference: a: ${a.k} is a cycle
+\* that only the path walk can see); "l.0", "l.1.x": the list elements
+TabNK == ("n.k" :> <<NF("n"), NF("k")>>) @@ ("q.k" :> <<NF("q"), NF("k")>>) @@ ("a.k" :> <<NF("a"), NF("k")>>)
+         @@ ("l.0" :> <<NF("l"), IX(0)>>) @@ ("l.1.x" :> <<NF("l"), IX(1), NF("x")>>)
 ShQuick == {Lit("x"), Lit(""), Ref("a"), Ref("b"), Ref("c"), Ref("m"), Ref("n.k"), Ref("n"),
             Cat(<<Ref("b"), Ref("b")>>), Cat(<<Lit("p"), Ref("c")>>), Def(Lit("m"), Lit("d")), Def(Lit("b"), Ref("c")),
             Alt(Lit("b"), Lit("y")), ErrOp(Lit("m"), Lit("boom")), Ind(Ref("c")), Cat(<<Alt(Lit("b"), Lit("y")), Ref("b")>>),
-            Val(P("n", "7")), Ref("q.k"), Alt(Lit("q.k"), Lit("y")), ErrOp(Lit("q.k"), Lit("boom"))}
+            Val(P("n", "7")), Ref("q.k"), Alt(Lit("q.k"), Lit("y")), ErrOp(Lit("q.k"), Lit("boom")), Ref("a.k"), Cat(<<Lit("p"), Ref("a.k")>>)}
 ShFull == ShQuick \cup {Cat(<<Ref("a"), Ref("c")>>), Def(Lit("a"), Lit("")), Def(Ref("c"), Lit("d")), Alt(Lit("m"), Lit("y")),
                         ErrOp(Lit("b"), Ref("c")), Cat(<<Ref("n.k"), Ref("m")>>), Ind(Cat(<<Lit("n."), Lit("k")>>)), Val(Nil)}
 ShSmall == {Lit("x"), Ref("a"), Ref("b"), Ref("c"), Ref("m"), Ref("n"), Cat(<<Ref("b"), Ref("b")>>), Def(Lit("b"), Ref("c")),
             Alt(Lit("b"), Lit("y")), Cat(<<Alt(Lit("b"), Lit("y")), Ref("b")>>),
-            Cat(<<Lit("p"), Ref("q.k")>>), Def(Lit("q.k"), Lit("d"))}
+            Cat(<<Lit("p"), Ref("q.k")>>), Def(Lit("q.k"), Lit("d")), Ref("a.k")}
 ShK == {Lit("z"), Ref("a"), Ref("n"), Ref("c"), Cat(<<Ref("b"), Lit("q")>>)}
 E1 == N(("m" :> StrV("e1")) @@ ("a" :> StrV("ea")), <<>>)
 E2 == N(("m" :> StrV("e2")) @@ ("b" :> Dyn(Ref("m"))), <<>>)
